@@ -29,7 +29,7 @@ def _ln(M, v):
     return fs._ln(M, v)
 
 
-def model_case(M, model, m, n, rows, kkind, bkind, wkind, ubkind="fin", via="function"):
+def model_case(M, model, m, n, rows, kkind, bkind, wkind, ubkind="fin", via="function", warm_baseline=False):
     A, K, base, lb, ub, lbl, ubl = fs.mk_system(M, m, n, kkind, bkind, "pos", ubkind)
     # concrete modes: a mix of in- and out-of-gamut targets (per-receptor scales differ so that many are unreachable)
     B = M.real("B", (rows, m), sample=lambda r, s: r.uniform(0.5, 3.0, size=s) * r.choice([0.3, 1.0, 4.0], size=s))
@@ -39,6 +39,10 @@ def model_case(M, model, m, n, rows, kkind, bkind, wkind, ubkind="fin", via="fun
             M.assume(v > 0)
     fs.assume_nonneg_system(M, A, K, base, B, kkind)
     xc = M.real("xc", (rows, n), sample=lambda r, s: r.uniform(0.3, 1.0, size=s))
+    if warm_baseline and via == "function":
+        # an earlier fit of the same system with a different baseline must not influence this one
+        other = np.asarray(base) + (symnp.const(0.75) if M.symbolic else 0.75)
+        fs.call_model(model, A, B, lb, ub, W, K, other, 1)
     symcp.reset()
     if via == "function":
         X, Bp = fs.call_model(model, A, B, lb, ub, W, K, base, 1)
@@ -149,6 +153,11 @@ def cases(tier, seed):
         for (m, n) in ((2, 2), (3, 2)) + (((3, 4), (4, 5)) if big else ()):
             add(f"{model} {m}x{n} K=vec base=vec W=mat rows=2", model=model, m=m, n=n, rows=(3 if big else 2), kkind="vec", bkind="vec", wkind="mat")
         add(f"{model} 2x3 K=vec base=vec W=none ub=default", model=model, m=2, n=3, rows=1, kkind="vec", bkind="vec", wkind="none", ubkind="default")
+        for shp in (((2, 2), (3, 2)) if model == "poisson" else ((2, 2),)):
+            # (a cache inside the library keyed on the arrays' bytes is only hit by the real code's float arrays: the run of the real code decides)
+            add(f"{model} {shp[0]}x{shp[1]} K=vec base=vec after an earlier fit of the same system with another baseline", model=model, m=shp[0], n=shp[1], rows=2, kkind="vec", bkind="vec",
+                wkind="none", warm_baseline=True)
+            C[-1]["opts"].update(n_validate=(3 if model == "poisson" else 2), float_strict=True)
         add(f"estimator.fit {model} 2x3 K=vec base=vec W=mat", model=model, m=2, n=3, rows=1, kkind="vec", bkind="vec", wkind="mat", via="estimator")
         add(f"estimator.fit {model} 2x3 K=scalar base=scalar W=none", model=model, m=2, n=3, rows=1, kkind="scalar", bkind="scalar", wkind="none", via="estimator")
     C.append(dict(name="model dispatch", body="dispatch_case", kwargs={}, opts=dict(n_validate=1)))
